@@ -72,6 +72,8 @@ impl Oracle {
             faults: vec![],
             leak: 0,
             canary: false,
+            clock: None,
+            pid: None,
         };
         let run = run_node(scratch, bins, &spec);
         let res = match run.verdict() {
